@@ -34,8 +34,8 @@ W0 == <<D(20000, 1), D(10, 1)>>               \* 20000 USDC, 10 ETH  (token0, to
 U == INSTANCE UniLp WITH Ranges <- RangesDef, Rows <- RowsA
 M == INSTANCE UniLp WITH Ranges <- {Mir(r) : r \in RangesDef}, Rows <- RowsB
 
-BaseAmts  == {D(1, 1), AllAmt, D(0, 1)} \cup (IF Level > 1 THEN {D(50, 1)} ELSE {})
-QuoteAmts == {D(2000, 1), AllAmt, D(0, 1)} \cup (IF Level > 1 THEN {D(100000, 1)} ELSE {})
+BaseAmts  == {D(1, 1), AllAmt, D(0, 1), D(200, 1)}                     \* 200 ETH: twenty times the wallet (oversized: the other token binds)
+QuoteAmts == {D(2000, 1), AllAmt, D(0, 1), D(100000, 1)}              \* 100000 USDC: five times the wallet
 LiqAmts   == {AllLiq, <<0, 0, 0, 1>>} \cup (IF Level > 1 THEN {<<>>, <<0, 0, 0, 0, 0, 0, 1>>} ELSE {})
 
 OpEvents ==
